@@ -142,8 +142,11 @@ P("C29", [("V9", None), ("K1", r"^k3_"), ("K7", None)],
   "invariant: both), that an unknown lifetime is bound only for an invariant relation whose value its universe can name and otherwise yields exactly those requirements, and — as a lemma "
   "over these contracts and the verified variance composition — that `&'a T <: &'b T` requires exactly `'a: 'b` (unbounded). Kani proves the variance algebra (full domain) and that "
   "zip_substs relates argument i at ambient∘declared[i], in order, stopping at the first failure (BOUNDED: <= 3 arguments).",
-  "Also (V9) the projection rule: at a co-/contravariant position a projection is equated with a fresh unknown which is related to the other side at the SAME variance. "
-  "Not reached: relate_ty_ty's arms themselves (Ref/Raw/Adt/Tuple/FnDef/Function), relate_lifetime_lifetime (reference patterns), 'structures agree', the two-unknowns flounder rule.",
+  "Also (V9) the projection rule: at a co-/contravariant position a projection is equated with a fresh unknown which is related to the other side at the SAME variance; and the dispatcher "
+  "of a bare lifetime position itself, Unifier::relate_lifetime_lifetime (extracted text, reference patterns dereferenced mechanically, edit D4): over the NORMALIZED lifetimes, for every pair of "
+  "LifetimeData variants, two unknowns are unified, an unknown on the left goes to unify_lifetime_var at the given variance and an unknown on the RIGHT at the inverted variance with the sides swapped "
+  "(universe of the placeholder, the root for 'static/erased/error), two known lifetimes record exactly the variance-dictated requirements unless they are the same, an error lifetime requires nothing; always Ok. "
+  "Not reached: relate_ty_ty's arms themselves (Ref/Raw/Adt/Tuple/FnDef/Function), 'structures agree', the two-unknowns flounder rule.",
   "contract-based deductive verification: Verus on extracted text + Kani function contracts / harness contracts")
 
 P("C14", [("K1", r"^k1_(c_ui|l_universe)"), ("V9", None), ("V8", None)],
